@@ -1087,3 +1087,62 @@ Section Follow.
         intros c d _. unfold Fp1. rewrite <- (stairZ_top d (med_of d) (hs c)). unfold stairZ. rewrite adj_adj_same. f_equal.
   Qed.
 End Follow.
+
+(* ================================================================ mj_default on k-fold balanced dictionaries *)
+Section Glue.
+  Variable k : Z.
+  Hypothesis Hk : (0 < k)%Z.
+
+  Lemma crel_eq d d' : crel k d d' -> d' = scalec k d.
+  Proof.
+    intros H. induction H as [|[s n] [s' n'] d d' [Hs Hn] _ IH]; [reflexivity|]. cbn [fst snd] in *. unfold zsc in Hn. subst s' n'.
+    cbn [scalec map fst snd]. fold (scalec k d). rewrite IH. reflexivity.
+  Qed.
+
+  Lemma screl_eq sub sub' : screl k sub sub' -> sub' = mapd (Fsc k) sub.
+  Proof.
+    intros H. induction H as [|[c d] [c' d'] l l' [Hc Hd] _ IH]; [reflexivity|]. cbn [fst snd] in *. subst c'.
+    cbn [mapd map fst snd]. fold (mapd (Fsc k) l). rewrite IH. unfold Fsc at 1. rewrite (crel_eq d d' Hd). reflexivity.
+  Qed.
+
+  Lemma sum_totals U T : Inv U T ->
+    fold_left Z.add (map (fun cd : C * cscores => cs_total (snd cd)) U) 0%Z = (Z.of_nat (length U) * T)%Z.
+  Proof.
+    intros [_ H]. induction H as [|x U [_ Hx] _ IH]; [reflexivity|]. cbn [map fold_left length]. rewrite fold_add_shiftZ, IH, Hx. lia.
+  Qed.
+
+  Lemma mj_fuel_enough U T : Inv U T -> U <> [] -> (0 < T)%Z -> (Z.to_nat T + length U < mj_fuel U)%nat.
+  Proof.
+    intros HI Hne HT. unfold mj_fuel. rewrite (sum_totals U T HI).
+    destruct U as [|x U']; [congruence|]. cbn [length]. set (s := length U').
+    rewrite Nat2Z.inj_succ. rewrite Z2Nat.inj_mul by lia. rewrite Z2Nat.inj_succ, Nat2Z.id by lia.
+    assert (1 <= Z.to_nat T)%nat by lia. nia.
+  Qed.
+
+  Theorem mj_default_balanced U T n : Inv U T ->
+    mj_default (mj_fuel (mapd (Fsc k) U)) (mapd (Fsc k) U) n = mj_default (mj_fuel U) U n.
+  Proof.
+    intros HI. pose proof (SC_Inv k Hk U T HI) as HI'.
+    pose proof (simple_mx (Fsc k) U T (k * T) HI HI' (iff_sync k Hk T)) as Emx.
+    destruct (mx U <=? 0)%Z eqn:Hm.
+    - unfold mj_fuel. rewrite !(Nat.add_comm _ 2). cbn [Nat.add]. rewrite !mj_default_unfold, Emx, Hm. reflexivity.
+    - assert (Hne : U <> []) by (intros ->; discriminate).
+      destruct (proj1 (mx_pos U T HI (Inv_nonneg U T HI Hne)) Hm) as [_ HT].
+      assert (Hne' : mapd (Fsc k) U <> []) by (destruct U; [congruence|discriminate]).
+      assert (HT' : (0 < k * T)%Z) by nia.
+      pose proof (mj_default_MJ _ U n T HI ltac:(lia) (mj_fuel_enough U T HI Hne HT)) as M1.
+      pose proof (mj_default_MJ _ (mapd (Fsc k) U) n (k * T) HI' ltac:(lia) (mj_fuel_enough _ _ HI' Hne' HT')) as M2.
+      destruct (MJ_follow k Hk U n _ M1 T HI) as [M3 _].
+      exact (MJ_det _ _ _ M3 _ M2).
+  Qed.
+
+  (* majority judgment with the default rule on a profile whose corrected score dictionaries are balanced *)
+  Theorem mj_default_scale cf votes n : cfg_ok k cf (sp_total votes) ->
+    (forall sc, corrected_scores cf votes = inl sc -> exists T, Inv sc T) ->
+    majority_judgment false cf (scale_z k votes) n = majority_judgment false cf votes n.
+  Proof.
+    intros Hcf Hbal. apply (majority_judgment_rel k Hk false cf votes _ n Hcf (sprel_scale k votes)).
+    intros _ sc tied sub' j Esc Hs. destruct (Hbal sc Esc) as [T HI].
+    rewrite (screl_eq _ _ Hs). apply (mj_default_balanced _ T). apply Inv_filter, HI.
+  Qed.
+End Glue.
